@@ -60,7 +60,9 @@ def shape_strategy(max_turns):
         st.fixed_dictionaries({"shape": st.just("arc"), "r": rad, "a0": ang, "sweep": sweep,
                                "dz": dz, "zgiven": st.booleans(), "full": st.sampled_from([False, False, True, "nominal"])}),
         st.fixed_dictionaries({"shape": st.just("arc_radius"), "dx": nz, "dy": off,
-                               "rf": st.floats(min_value=1.05, max_value=4.0),
+                               "rf": st.one_of(st.floats(min_value=1.05, max_value=4.0),
+                                               # radius barely above half the chord
+                                               st.floats(min_value=1.00002, max_value=1.004)),
                                "neg": st.booleans(), "dz": dz, "zgiven": st.booleans()}),
         st.fixed_dictionaries({"shape": st.just("circle"), "cx": nz, "cy": off}),
         st.fixed_dictionaries({"shape": st.just("spline"),
